@@ -693,3 +693,87 @@ Proof.
   - unfold bufj_fact. simpl. intros m Hm. destruct Hm.
 Qed.
 
+
+(* ------------------------------------------------------------------------------------------ *)
+(* Reachable-state fact behind the round-1 case                                                *)
+
+Definition sent_msgs (ls : list label) : list msg := flat_map (fun l => bcasts (label_outs l)) ls.
+
+Definition r1_fact (p : params) (s : state) (log : list msg) : Prop :=
+  (decided s = false -> 1 <= round s) /\
+  (started s = false -> s = init) /\
+  (decided s = false -> dead s = false -> started s = true -> round s = 1 -> is_leader p 1 (self p) = true ->
+     (input s = 0%N /\ ppj s = PEmpty)
+     \/ (input s <> 0%N /\ In (mkm (mk PrePrepare (self p) 1 (input s) 0 0) []) log)).
+
+Lemma r1_fact_fstep : forall p s e o s' outs log, 1 <= nodes p -> r1_fact p s log -> fstep p s e o = Some (s', outs) ->
+  r1_fact p s' (log ++ bcasts outs).
+Proof.
+  intros p s e o s' outs log Hn [H1 [H0 H2]] H. unfold r1_fact.
+  pose proof (quorum_pos (nodes p) Hn) as Hq. fold (qn p) in Hq. destruct e.
+  - crush_fstep H; apply orb_false_iff in Heqb; destruct Heqb as [Hst Hdd]; rewrite (H0 Hst) in *; simpl;
+      (split; [lia|]); (split; [discriminate|]); intros; auto; try congruence.
+  - assert (Hst : started s = true /\ dead s = false /\ input s = 0%N).
+    { unfold fstep in H. destruct (negb (started s) || dead s || negb (N.eqb (input s) 0)) eqn:E; [discriminate|].
+      apply orb_false_iff in E. destruct E as [E E3]. apply orb_false_iff in E. destruct E as [E1 E2].
+      apply negb_false_iff in E1, E3. apply N.eqb_eq in E3. auto. }
+    destruct Hst as [Hst [Hdd Hin]].
+    crush_fstep H; simpl; autorewrite with st; simpl; (split; [auto|]); (split; [intro; congruence|]).
+    all: intros A1 A2 A3 A4 A5; try discriminate.
+    all: assert (A1' : decided s = false) by exact A1.
+    all: destruct (H2 A1' A2 A3 A4 A5) as [[B1 B2]|[B1 B2]]; try congruence.
+    right. apply N.eqb_neq in Heqb0. split; [exact Heqb0|]. rewrite A4. apply in_or_app. right. left. reflexivity.
+  - assert (Hst : started s = true /\ dead s = false).
+    { unfold fstep in H. destruct (negb (started s) || dead s) eqn:E; [discriminate|].
+      apply orb_false_iff in E. destruct E as [E1 E2]. apply negb_false_iff in E1. auto. }
+    destruct Hst as [Hst Hdd].
+    crush_fstep H; try rule_facts; simpl; autorewrite with st; simpl; rewrite ?app_nil_r; (split; [|split; [intro; congruence|]]).
+    all: prep_facts; eqb_conv.
+    all: try (intros _; apply H1; reflexivity).
+    all: try (apply H2; reflexivity).
+    all: try (intro A1; undec A1; try congruence; try specialize (H1 A1); simpl in *; lia).
+    all: try (intros A1 A2 A3 A4 A5; undec A1; try congruence).
+    all: try first [specialize (H1 A1) | specialize (H1 eq_refl)].
+    all: try (assert (Hr1 : round s = 1) by (simpl in *; lia)).
+    all: try (first [pose proof (H2 A1 A2 A3 Hr1 A5) as HH | pose proof (H2 eq_refl A2 A3 Hr1 A5) as HH | pose proof (H2 eq_refl A2 A3 A4 A5) as HH];
+              destruct HH as [[B1 B2]|[B1 B2]];
+              [left; split; [exact B1 | try exact B2] | right; split; [exact B1 | try (apply in_or_app; left); exact B2]]).
+    all: try (exfalso; simpl in *; autorewrite with st in *; simpl in *; first [congruence | lia]).
+    + intro A1. exfalso. apply negb_false_iff in Heqb1. unfold justified in Heqb1. rewrite Hr in Heqb1.
+      unfold justified_decided in Heqb1. apply Nat.leb_le in Heqb1. unfold decided in A1. simpl in A1.
+      destruct (just m); [unfold nsrc in Heqb1; simpl in Heqb1; lia | discriminate].
+    + exfalso. apply negb_false_iff in Heqb1. unfold justified in Heqb1. rewrite Hr in Heqb1.
+      unfold justified_decided in Heqb1. apply Nat.leb_le in Heqb1.
+      destruct (just m); [unfold nsrc in Heqb1; simpl in Heqb1; lia | discriminate].
+  - assert (Hst : started s = true /\ dead s = false).
+    { unfold fstep in H. destruct (negb (started s) || dead s) eqn:E; [discriminate|].
+      apply orb_false_iff in E. destruct E as [E1 E2]. apply negb_false_iff in E1. auto. }
+    destruct Hst as [Hst Hdd].
+    crush_fstep H; simpl; autorewrite with st; simpl; (split; [|split; [intro; congruence|]]).
+    + intro A1. undec A1. specialize (H1 A1). lia.
+    + intros A1 A2 A3 A4 A5. undec A1. specialize (H1 A1). lia.
+Qed.
+
+Lemma r1_fact_init : forall p, r1_fact p init [].
+Proof. intro p. split; [simpl; lia|]. split; [reflexivity|]. intros _ _ H. discriminate. Qed.
+
+Lemma run_r1_fact_from : forall p ls s s' log, 1 <= nodes p -> r1_fact p s log -> run p s ls = Some s' ->
+  r1_fact p s' (log ++ sent_msgs ls).
+Proof.
+  intros p. induction ls as [|l ls IH]; simpl; intros s s' log Hn Hs H.
+  - inversion H; subst. rewrite app_nil_r. exact Hs.
+  - destruct (step p s l) as [s1|] eqn:E; [|discriminate]. apply step_fstep in E.
+    rewrite app_assoc. eapply IH; [exact Hn | | exact H]. eapply r1_fact_fstep; eassumption.
+Qed.
+
+(* reachable-state fact behind the round-1 case: a running, undecided round-1 leader that has its
+   input value has broadcast PRE-PREPARE(1, input) (with the empty justification) *)
+Theorem leader_input_sent : forall p ls s, 1 <= nodes p -> run p init ls = Some s ->
+  decided s = false -> dead s = false -> started s = true -> round s = 1 -> is_leader p 1 (self p) = true ->
+  input s <> 0%N -> In (mkm (mk PrePrepare (self p) 1 (input s) 0 0) []) (sent_msgs ls).
+Proof.
+  intros p ls s Hn H A1 A2 A3 A4 A5 Hin.
+  destruct (run_r1_fact_from p ls init s [] Hn (r1_fact_init p) H) as [_ [_ H2]].
+  destruct (H2 A1 A2 A3 A4 A5) as [[B1 _]|[_ B2]]; [contradiction | exact B2].
+Qed.
+
